@@ -788,7 +788,9 @@ class Interp:
             cur = _deref(self.expr(e["l"], env))
             r = _deref(self.expr(e["r"], env))
             if not (isinstance(cur, int) and isinstance(r, int)):
-                self.fail(e, f"{op} on symbolic integers")
+                # bit operation on a symbolic integer: an uninterpreted function of its operands
+                self.assign(e["l"], VOpaque({"<<=": "shl", ">>=": "shr", "|=": "bitor", "&=": "bitand", "^=": "bitxor"}[op], [cur, r]), env)
+                return UNIT
             nv = {"<<=": lambda: (cur << r) & 0xFFFFFFFFFFFFFFFF, ">>=": lambda: cur >> r, "|=": lambda: cur | r, "&=": lambda: cur & r, "^=": lambda: cur ^ r}[op]()
             self.assign(e["l"], nv, env)
             return UNIT
@@ -1448,6 +1450,9 @@ class Interp:
                 return C(args[0])
             self.fail(e, "BlsScalar::from of non-constant")
         if name in ("Vec::with_capacity", "Vec::new"):
+            if name == "Vec::with_capacity" and getattr(self, "track_allocs", False) and args and not isinstance(args[0], int):
+                # decoder units: memory reserved for a size taken from the input is part of the observable order of checks
+                self.ctx.exits.append(("alloc", canon(args[0])))
             return VArr([], "vec")
         if name in ("cmp::min", "cmp::max", "core::cmp::min", "core::cmp::max", "std::cmp::min", "std::cmp::max") and len(args) == 2 \
                 and all(isinstance(x, int) and not isinstance(x, bool) for x in args):
@@ -1497,6 +1502,35 @@ class Interp:
             v = self.try_inline(segs[-1], args_i)
             if v is not NotImplemented:
                 return v
+        if len(segs) == 2 and getattr(self, "helper_files", None) and getattr(self, "file_root", None) and self.inline_depth < 3:
+            # `Type::f(..)` of a crate type without a contract: its real body, if it can be found in the unit's helper files
+            root = self.file_root[0]
+            for rel in [self.file_root[1]] + list(self.helper_files):
+                for pth in fn_paths(root, rel):
+                    owner_ok = pth.startswith(f"<{segs[0]} as ") or pth.startswith(f"{segs[0]}::") or f"::{segs[0]}::" in pth or f"::<{segs[0]} as " in pth
+                    if pth.endswith("::" + segs[1]) and owner_ok and not pth.startswith("test"):
+                        try:
+                            ast_ = dump_ast(root, rel, pth)
+                        except AstLost:
+                            continue
+                        prm = ast_["sig"]["params"]
+                        if any(p_.get("recv") for p_ in prm) or len(prm) != len(args):
+                            continue
+                        env_ = ChildEnv(None)
+                        for p_, a_ in zip(prm, args):
+                            self.bind(p_["pat"], a_, env_)
+                        self.inline_depth += 1
+                        self.calls.append(f"INLINED-BODY:{rel}::{pth}")
+                        saved_root = self.file_root
+                        self.file_root = (root, rel, pth.rsplit("::", 1)[0])
+                        try:
+                            try:
+                                return self.block(ast_["body"], env_)
+                            except Return as r_:
+                                return r_.v
+                        finally:
+                            self.inline_depth -= 1
+                            self.file_root = saved_root
         self.fail(e, f"call of `{path}` (no contract)")
 
     inline_depth = 0
@@ -1691,6 +1725,13 @@ class Interp:
             if isinstance(recv, VIter) and isinstance(a, VIter):
                 n = min(len(recv.items), len(a.items))
                 return VIter([VTuple([recv.items[i], a.items[i]]) for i in range(n)])
+            if isinstance(recv, VSymIter) and isinstance(a, (VSymIter, Sym, VOpaque)):
+                # two symbolic sequences walked in lock step: the generic element is the pair of their generic elements
+                if not isinstance(a, VSymIter):
+                    a = VSymIter(Sym(canon(a)))
+                zb = Sym(VOpaque("zip", [recv.base, a.base]).canon())
+                el = VTuple([_subst_sym(recv.elem, recv.base.path + "[*]", zb.path + "[*].0"), _subst_sym(a.elem, a.base.path + "[*]", zb.path + "[*].1")])
+                return VSymIter(zb, base=zb, elem=el)
             self.fail(e, "zip on symbolic iterator")
         if m == "map" and isinstance(recv, VSymIter) and isinstance(args[0], VOpaque) and args[0].name.startswith("fn:"):
             fname = args[0].name[3:]
@@ -1750,6 +1791,8 @@ class Interp:
                 if m == "all" and not r:
                     return False
             return m == "all"
+        if m == "unzip" and isinstance(recv, VSymIter) and isinstance(recv.elem, VTuple) and len(recv.elem.items) == 2 and not getattr(recv, "pending", None):
+            return VTuple([VOpaque("collected", [Sym(VOpaque("map_each", [recv.base, x]).canon())]) for x in recv.elem.items])
         if m == "collect" and isinstance(recv, VSymIter):
             if getattr(recv, "pending", None):
                 self.ctx.event("for_each_in_order", recv.pending[0], recv.pending[1])
@@ -1855,6 +1898,10 @@ class Interp:
             src = args[0]
             for i in range(len(arr.items)):
                 arr.items[i] = VOpaque("spliced", [arr.items[i], lo, hi, src, i])      # element i after `arr[lo..hi] = src`
+            return UNIT
+        if m == "copy_from_slice" and isinstance(recv, VArr) and isinstance(args[0], VOpaque) and args[0].name == "slice":
+            for i in range(len(recv.items)):
+                recv.items[i] = VOpaque("idx", [args[0], i])          # byte i of the (symbolic) source slice; lengths assumed equal (else panic)
             return UNIT
         if m == "copy_from_slice" and isinstance(recv, VArr) and isinstance(args[0], VArr):
             if len(recv.items) != len(args[0].items):
@@ -2038,6 +2085,9 @@ class Interp:
                 if r_ is not NotImplemented:
                     self.calls.append(key)
                     return r_
+        if isinstance(recv, Sym) and recv.path.startswith("self.") and recv.path.count(".") == 1 and (m in READONLY_METHODS or m.startswith("is_")) \
+                and m not in ("iter", "clone", "copied", "cloned", "to_vec", "as_slice"):
+            return VOpaque(f"{recv.path}.{m}", list(args))       # a READ of a field of `self`: an uninterpreted function of that field
         if isinstance(recv, Sym) and recv.path.startswith("self.") and recv.path.count(".") == 1 and not m.startswith("is_") \
                 and m not in READONLY_METHODS and getattr(self, "trace_fields", True):
             # an unknown (possibly mutating) method on a field of `self`: an uninterpreted EFFECT on that field, recorded in the trace
@@ -2409,6 +2459,7 @@ def run_unit(root, unit, contracts, seed=0, perturb=None):
         it1.trace_only, it1.tracked = unit.trace_only, unit.tracked
         it1.file_root = (root, unit.file, unit.fn.rsplit("::", 1)[0] if "::" in unit.fn else None)
         it1.helper_files = list(getattr(unit, "helper_files", ()) or ())
+        it1.track_allocs = bool(getattr(unit, "track_allocs", False))
         it1.decisions = list(decisions)
         env = ChildEnv(None)
         args1 = []
